@@ -350,6 +350,21 @@ func cmdReadFrame(src *source, st cmdStep) *cmdFrame {
 	f.global("mapOrder", "(List Int → List Int)", 0, 0)
 	f.global("circular", "Bool", 3, 0)
 	fr := &cmdFrame{fd: fd, c: c, f: f, list: fd.Body.List, loopAt: -1, declAt: map[string]int{}}
+	// the *flags.Context parameter and the two argument sets `pos, opt := flags.Flags()`, whatever they are called
+	if ps := fd.Type.Params.List; len(ps) == 1 && len(ps[0].Names) == 1 && exprString(ps[0].Type) == "*flags.Context" {
+		c.ctxNm = ps[0].Names[0].Name
+	} else {
+		refuse("%s: the parameter list is not (ctx *flags.Context)", st.goFn)
+	}
+	posName, optName := "", ""
+	for _, s := range fr.list {
+		if as, ok := s.(*ast.AssignStmt); ok && as.Tok == token.DEFINE && len(as.Lhs) == 2 && len(as.Rhs) == 1 && exprString(as.Rhs[0]) == "flags.Flags()" {
+			posName, optName = identName(as.Lhs[0]), identName(as.Lhs[1])
+		}
+	}
+	if posName == "" || optName == "" {
+		refuse("%s: no `pos, opt := flags.Flags()`", st.goFn)
+	}
 	for i, s := range fr.list {
 		fs, ok := s.(*ast.ForStmt)
 		if !ok || fs.Init != nil || fs.Post != nil || fs.Cond == nil {
@@ -403,9 +418,9 @@ func cmdReadFrame(src *source, st cmdStep) *cmdFrame {
 			case n.Tok != token.DEFINE:
 			case len(n.Lhs) == 2 && cmdCallPrefix(rhs, "newIODelegate"):
 				fr.delegate = lhs0
-			case len(n.Lhs) == 1 && cmdCallPrefix(rhs, "opt.Switch"):
+			case len(n.Lhs) == 1 && cmdCallPrefix(rhs, optName+".Switch"):
 				glob("flagptr", 2)
-			case len(n.Lhs) == 1 && cmdCallPrefix(rhs, "opt.String", "pos.String"):
+			case len(n.Lhs) == 1 && cmdCallPrefix(rhs, optName+".String", posName+".String"):
 				glob("strptr", 2)
 			case len(n.Lhs) == 1 && exprString(rhs) == "gts.Props{}":
 				glob("props", 4)
